@@ -563,7 +563,14 @@ class WithComponentsConstraint(AbstractConstraint):
     """
     def _testValue(self, value, idx):
         for field, constraint in self._values:
-            constraint(value.get(field))
+            component = value.get(field)
+
+            # the placeholder a read leaves in an unset slot is not a
+            # present component
+            if not getattr(component, 'isValue', True):
+                component = None
+
+            constraint(component)
 
     def _setValues(self, values):
         AbstractConstraint._setValues(self, values)
